@@ -18,10 +18,18 @@ pub fn threads() -> usize {
 
 /// Applies `f` to every item on a pool of threads and returns the results in input order.
 pub fn par_map<T: Sync, R: Send>(items: &[T], f: impl Fn(usize, &T) -> R + Sync) -> Vec<R> {
+    par_map_capped(items, usize::MAX, f)
+}
+
+/// Like `par_map` with at most `cap` workers. For work that itself creates OS threads
+/// (the SQLite and LMDB backends answer from a worker thread each): creating and waking
+/// threads contends on the process's address-space lock, and on the virtual machines this
+/// runs on a handful of workers gets through such work faster than one per core.
+pub fn par_map_capped<T: Sync, R: Send>(items: &[T], cap: usize, f: impl Fn(usize, &T) -> R + Sync) -> Vec<R> {
     let n = items.len();
     let next = AtomicUsize::new(0);
     let slots: Vec<Mutex<Option<R>>> = (0..n).map(|_| Mutex::new(None)).collect();
-    let nthreads = threads().min(n.max(1));
+    let nthreads = threads().min(cap.max(1)).min(n.max(1));
     std::thread::scope(|s| {
         for _ in 0..nthreads {
             s.spawn(|| loop {
